@@ -99,17 +99,19 @@ def LoopRel (store : StoreFn φ) (pinnedReader : Bool) (mp : Option Nat) (labels
   ls.array = a ∧ ls.loaded = o.loaded ∧ ls.lru = o.last_accessed ∧ ls.reader = readerFrames store pinnedReader mp r ∧
   a.length = labels.length ∧ o.loaded.length = labels.length
 
-/-- an exception leaves the same in-place mutations; `_series` / `_loaded_all` are not written in the loop -/
-def ErrRel (o0 : Obj φ) (g : Err × Obj φ) (m : Err × Loop φ) : Prop :=
-  g.1 = m.1 ∧ m.2.loaded = g.2.loaded ∧ m.2.lru = g.2.last_accessed ∧ g.2.series = o0.series ∧ g.2.loaded_all = o0.loaded_all
+/-- an exception leaves the same in-place mutations and the same local `array` (the `finally` block stores it);
+    `_series` / `_loaded_all` are not written in the loop -/
+def ErrRel (o0 : Obj φ) (g : Err × Obj φ × List (Option φ)) (m : Err × Loop φ) : Prop :=
+  g.1 = m.1 ∧ m.2.loaded = g.2.1.loaded ∧ m.2.lru = g.2.1.last_accessed ∧ m.2.array = g.2.2 ∧
+  g.2.1.series = o0.series ∧ g.2.1.loaded_all = o0.loaded_all
 
 /-- results of a pass / of the loop in correspondence, max_persist None -/
 def SimNone (store : StoreFn φ) (pinnedReader : Bool) (labels : List Nat) (o0 : Obj φ)
-    (g : Except (Err × Obj φ) (Obj φ × List (Option φ) × Reader)) (m : Except (Err × Loop φ) (Loop φ)) : Prop :=
+    (g : Except (Err × Obj φ × List (Option φ) × Reader) (Obj φ × List (Option φ) × Reader)) (m : Except (Err × Loop φ) (Loop φ)) : Prop :=
   match g, m with
   | .ok (o', a', r'), .ok ls' =>
       LoopRel store pinnedReader none labels ls' o' a' r' ∧ o'.series = o0.series ∧ o'.loaded_all = o0.loaded_all
-  | .error ge, .error me => ErrRel o0 ge me
+  | .error (e, o', a', _), .error me => ErrRel o0 (e, o', a') me
   | _, _ => False
 
 theorem body_bridge_mpNone (store : StoreFn φ) (pinnedReader : Bool) (st : StoreSt) (labels : List Nat)
@@ -160,12 +162,12 @@ theorem body_bridge_mpNone (store : StoreFn φ) (pinnedReader : Bool) (st : Stor
 
 /-- results of a pass / of the loop in correspondence, max_persist = k -/
 def SimSome (store : StoreFn φ) (pinnedReader : Bool) (k : Nat) (labels : List Nat) (o0 : Obj φ)
-    (g : Except (Err × Obj φ) (Obj φ × List (Option φ) × Int × Reader)) (m : Except (Err × Loop φ) (Loop φ)) : Prop :=
+    (g : Except (Err × Obj φ × List (Option φ) × Int × Reader) (Obj φ × List (Option φ) × Int × Reader)) (m : Except (Err × Loop φ) (Loop φ)) : Prop :=
   match g, m with
   | .ok (o', a', c', r'), .ok ls' =>
       LoopRel store pinnedReader (some k) labels ls' o' a' r' ∧ (ls'.count : Int) = c' ∧ o'.last_accessed.Nodup ∧
       o'.series = o0.series ∧ o'.loaded_all = o0.loaded_all
-  | .error ge, .error me => ErrRel o0 ge me
+  | .error (e, o', a', _, _), .error me => ErrRel o0 (e, o', a') me
   | _, _ => False
 
 theorem body_bridge_mpSome (store : StoreFn φ) (pinnedReader : Bool) (st : StoreSt) (labels : List Nat) (k : Nat)
@@ -270,14 +272,14 @@ theorem body_bridge_mpSome (store : StoreFn φ) (pinnedReader : Bool) (st : Stor
 /-! ### the loops -/
 
 theorem SimNone.mono {store : StoreFn φ} {pinnedReader : Bool} {labels : List Nat} {o o' : Obj φ}
-    {g : Except (Err × Obj φ) (Obj φ × List (Option φ) × Reader)} {m : Except (Err × Loop φ) (Loop φ)}
+    {g : Except (Err × Obj φ × List (Option φ) × Reader) (Obj φ × List (Option φ) × Reader)} {m : Except (Err × Loop φ) (Loop φ)}
     (h : SimNone store pinnedReader labels o' g m) (h1 : o'.series = o.series) (h2 : o'.loaded_all = o.loaded_all) :
     SimNone store pinnedReader labels o g m := by
   unfold SimNone at h ⊢
   split <;> simp_all [ErrRel]
 
 theorem SimSome.mono {store : StoreFn φ} {pinnedReader : Bool} {k : Nat} {labels : List Nat} {o o' : Obj φ}
-    {g : Except (Err × Obj φ) (Obj φ × List (Option φ) × Int × Reader)} {m : Except (Err × Loop φ) (Loop φ)}
+    {g : Except (Err × Obj φ × List (Option φ) × Int × Reader) (Obj φ × List (Option φ) × Int × Reader)} {m : Except (Err × Loop φ) (Loop φ)}
     (h : SimSome store pinnedReader k labels o' g m) (h1 : o'.series = o.series) (h2 : o'.loaded_all = o.loaded_all) :
     SimSome store pinnedReader k labels o g m := by
   unfold SimSome at h ⊢
